@@ -250,6 +250,14 @@ func (c13Prop) Gen(t *Tape, ph *PhaseCfg) Case {
 	if t.Draw(5) == 0 {
 		// sub-commands that are never addressed, declared with an alias list as a help text prints it
 		root.Subs = []*CmdDecl{{Name: []string{"start , run", "stop,", ", ls", "up  down"}[t.Draw(4)], Desc: "never addressed", Action: CB{Kind: CBReturn}}}
+		// (never addressed: a positional token that spells one of its names - "," is one - would address it)
+		for _, alias := range strings.Fields(root.Subs[0].Name) {
+			for _, tok := range argv[1:] {
+				if tok == alias {
+					root.Subs = nil
+				}
+			}
+		}
 	}
 	c.App = &AppDecl{Root: root, Policy: flag.ContinueOnError}
 	c.App.Finish()
